@@ -447,6 +447,8 @@ pub struct ParentStats {
     pub rlimit_failures: u64,
     pub allocator_missing: u64,
     pub notes: Vec<String>,
+    /// (shard number, cases, wall seconds)
+    pub shard_secs: Vec<(usize, u64, f64)>,
 }
 
 /// `<dir of current_exe>/../scratch/<name>-<pid>` (i.e. `/verif/target*/scratch/...`).
@@ -600,6 +602,7 @@ fn run_shard(
         }
     }
     let total: u64 = units.iter().map(|u| u.cases()).sum();
+    let t_shard = Instant::now();
     let mut reported: u64 = 0;
     let mut resume: Option<(u64, u64)> = None; // last case that must be skipped
     let mut restarts = 0u64;
@@ -767,6 +770,7 @@ fn run_shard(
     let mut s = stats.lock().unwrap();
     s.cases_reported += reported;
     s.cases_unreported += total.saturating_sub(reported);
+    s.shard_secs.push((shard_no, total, t_shard.elapsed().as_secs_f64()));
 }
 
 /// Runs all shards with at most `cfg.max_children` children at a time. Shards are started in the
